@@ -170,6 +170,11 @@ func runCLICase(w *out.W, mu *sync.Mutex, id string, c cliCase) {
 		qual = append(qual, "main."+p)
 	}
 	chains, splitOK, malformed := refChains(qual)
+	// the scope rule, independent of how the qualified string is put together: a sqlite URL is bound to
+	// schema main, so the FIRST component of a pattern is a table, the second a child, and there is no third
+	if rel, ok, mal, tooMany := refScopeChains("main", c.pats); ok {
+		chains, malformed = rel, mal || tooMany // too many components: an error is the justified answer
+	}
 	exT := func(t string) bool {
 		for _, ch := range chains {
 			if len(ch) == 2 && ch[0].sel("schema", "main") && ch[1].sel("table", t) {
@@ -312,6 +317,8 @@ func runCLICase(w *out.W, mu *sync.Mutex, id string, c cliCase) {
 			msg := strings.TrimSpace(plan.Stderr + apply.Stderr)
 			cls := "cli-apply-error"
 			switch {
+			case regexp.MustCompile("create \"new_[^\"]+\" table: no such column").MatchString(msg):
+				cls = "cli-apply-error-dangling-pk-part" // an excluded column is still named by the kept primary key and the table is rebuilt
 			case regexp.MustCompile("create index .*no such column").MatchString(msg):
 				cls = "cli-apply-error-dangling-index-part" // an excluded column is still named by a kept index and the table is rebuilt
 			case K["add_column"] && regexp.MustCompile("copy rows from old table .*no such column").MatchString(msg):
@@ -627,8 +634,45 @@ func runCLI(w *out.W, tier string) {
 	cases = append(cases, cliCase{before, desireds[6], []string{"t2"}, []string{"drop_column"}},
 		cliCase{before, desireds[6], []string{"t1.c3"}, []string{"drop_table"}},
 		cliCase{before, desireds[4], []string{"t1.["}, nil}, cliCase{before, desireds[4], []string{"t3.["}, nil})
+	// ---- names that coincide across levels (round 3): the schema of a SQLite connection is "main"; the
+	// database has a TABLE main with a COLUMN main and a column secret, a table secret, and an index named
+	// like a column.  At the scope of the connection `main` is the table, `main.secret` the column secret of
+	// table main (not the table secret), `main.*` the children of table main (not every table).
+	nBase := len(cases)
+	{
+		tm := cTab{"main", [][2]string{{"id", "integer"}, {"main", "integer"}, {"secret", "text"}, {"c1", "integer"}}, "id", []cIdx{{"c1", "c1"}, {"i2", "secret"}}}
+		ts := cTab{"secret", [][2]string{{"main", "integer"}, {"c1", "text"}}, "", []cIdx{{"j1", "main"}}}
+		tt := cTab{"t1", [][2]string{{"c1", "integer"}, {"main", "text"}}, "", nil}
+		t4 := cTab{"t4", [][2]string{{"c1", "integer"}, {"main", "integer"}}, "", nil}
+		cbefore := cState{tm, ts, tt}
+		cdesired := []cState{
+			{tm, ts, tt}, // nothing to do
+			{tm, tt},     // drop table secret
+			{mod(tm, func(t *cTab) { t.cols = append(t.cols, [2]string{"c4", "integer"}) }), ts, tt, t4},                     // add column main.c4 (ALTER), add t4
+			{mod(tm, func(t *cTab) { t.idx = []cIdx{{"i2", "secret"}, {"i3", "c1"}} }), mod(ts, func(t *cTab) { t.idx = nil }), tt}, // drop index c1, add i3, drop j1
+			{ts, mod(tt, func(t *cTab) { t.cols = append(t.cols, [2]string{"secret", "text"}) })},                              // drop table main, add column t1.secret
+			{mod(tm, func(t *cTab) { t.cols = t.cols[:3]; t.idx = t.idx[1:] }), ts, tt},                                          // drop column main.c1 + index c1 (rebuild)
+		}
+		cpats := [][]string{
+			nil, {"main"}, {"secret"}, {"main.secret"}, {"main.*"}, {"main.*[type=index]"}, {"main.*[type=column]"}, {"main.main"},
+			{"*.main"}, {"secret.main"}, {"m*"}, {"*"}, {"main[type=table]"}, {"main[type=schema]"}, {"main.c1"}, {"main.c1[type=index]"},
+			{"main.c1[type=column]"}, {"*.c1"}, {"t1.main"}, {"main", "main.secret"}, {"secret.*"}, {"main.main.secret"}, {"main.secret", "secret"},
+		}
+		for _, d := range cdesired {
+			for _, p := range cpats {
+				cases = append(cases, cliCase{cbefore, d, p, nil})
+			}
+		}
+		// with a skip policy (env file: exclude = [...] in the env block)
+		cases = append(cases, cliCase{cbefore, cdesired[4], []string{"main.secret"}, []string{"drop_table"}},
+			cliCase{cbefore, cdesired[1], []string{"main"}, []string{"drop_column"}},
+			cliCase{cbefore, cdesired[5], []string{"secret"}, []string{"drop_index"}},
+			// the excluded column is the primary key and another change rebuilds the table (found while building this family)
+			cliCase{cbefore, cdesired[5], []string{"main.id"}, nil})
+	}
+	w.Set("coincide_cases", len(cases)-nBase)
 	w.Exhaust = true
-	w.Set("exhaustive_bound", "8 desired states x (21 exclude lists + 12 skip sets) on one SQLite database (3 tables, indexes), real CLI")
+	w.Set("exhaustive_bound", "8 desired states x (21 exclude lists + 12 skip sets) on one SQLite database (3 tables, indexes); 6 desired states x 23 exclude lists on a database whose tables are called main, secret, t1 (columns main, secret; an index named like a column); real CLI")
 	if tier == "thorough" {
 		r := rng.FromEnv(0xC11)
 		for i := 0; i < 1500; i++ {
